@@ -108,8 +108,13 @@ pub fn serialize(cell: &A5Cell) -> Result<u64, String> {
         resolution,
     } = cell;
 
-    if *resolution > MAX_RESOLUTION {
+    // The 64-bit layout has room for the resolution marker up to MAX_RESOLUTION - 1
+    if *resolution >= MAX_RESOLUTION {
         return Err(format!("Resolution ({}) is too large", resolution));
+    }
+
+    if *resolution < -1 {
+        return Err(format!("Resolution ({}) is too small", resolution));
     }
 
     if *resolution == -1 {
@@ -180,10 +185,11 @@ pub fn cell_to_children(index: u64, child_resolution: Option<i32>) -> Result<Vec
         ));
     }
 
-    if new_resolution > MAX_RESOLUTION {
+    if new_resolution >= MAX_RESOLUTION {
         return Err(format!(
             "Target resolution ({}) exceeds maximum resolution ({})",
-            new_resolution, MAX_RESOLUTION
+            new_resolution,
+            MAX_RESOLUTION - 1
         ));
     }
 
